@@ -836,6 +836,43 @@ def bincount(x, weights=None, minlength=0):
     return SymArray(out, _np.int64 if weights is None else dtype_of(weights) if dtype_of(weights).kind == "f" else float)
 
 
+@sym_or_real("histogram")
+def histogram(a, bins=10, range=None, density=None, weights=None):
+    """equal-width bins, exact-real model of the edges: count_i = #{x : e_i <= x < e_{i+1}} (last bin closed)"""
+    if density or weights is not None or not isinstance(bins, (int, _np.integer)):
+        raise UnsupportedSymbolicOp("histogram with density / weights / explicit edges")
+    a = asanyarray(a).ravel()
+    bins = int(bins)
+    xs = list(a.vals)
+    if range is None:
+        if not xs:
+            lo, hi = 0, 1
+        else:
+            lo, hi = xs[0], xs[0]
+            for v in xs[1:]:
+                lo, hi = S_min(lo, v), S_max(hi, v)
+            if _b.bool(S_eq(lo, hi)):            # forks: a degenerate range is widened by NumPy
+                lo, hi = S_sub(lo, core.S_truediv(1, 2)), S_add(hi, core.S_truediv(1, 2))
+    else:
+        lo, hi = range
+        if not (is_conc(lo) and is_conc(hi)):
+            raise UnsupportedSymbolicOp("histogram with a symbolic range")
+    width = S_sub(hi, lo)
+    edges = [S_add(lo, core.S_truediv(S_mul(width, i), bins)) for i in _b.range(bins + 1)]
+    edges[-1] = hi
+    counts = _np.empty(bins, dtype=object)
+    for i in _b.range(bins):
+        tot = 0
+        for v in xs:
+            inside = S_land(S_le(edges[i], v), S_le(v, hi) if i == bins - 1 else S_lt(v, edges[i + 1]))
+            tot = S_add(tot, S_where(inside, 1, 0))
+        counts[i] = tot
+    e = _np.empty(bins + 1, dtype=object)
+    for i, v in enumerate(edges):
+        e[i] = v
+    return SymArray(counts, _np.int64), SymArray(e, _np.float64)
+
+
 @sym_or_real("argmax")
 def argmax(a, axis=None, **k):
     a = asanyarray(a)
@@ -862,11 +899,6 @@ def argmin(a, axis=None, **k):
         bi = S_where(c, i, bi)
         bv = S_where(c, a.vals[i], bv)
     return bi
-
-
-@sym_or_real("histogram")
-def histogram(a, bins=10, range=None, **k):
-    raise UnsupportedSymbolicOp("np.histogram on symbolic data")
 
 
 @sym_or_real("packbits")
